@@ -620,7 +620,11 @@ def main(chk: core.Check) -> int:
     if not getattr(chk, "no_prove", False):
         from verif.props import c01_inmem_gen
         c01_inmem_gen.regenerate(chk)   # Props/C03InMem instantiates the lock theorem at Generated/InMemoryMethods.lean
-        chk.prove(["OptunaVerif.Props.C03", "OptunaVerif.Props.C03Cache", "OptunaVerif.Props.C03InMem"])
+        from verif.props import c06_front, c06_gen
+        c06_gen.regenerate(chk)         # Props/C03Journal instantiates the lock theorem at the generated JournalStorage
+        c06_front.regenerate(chk)       # front end (Generated/JournalFront.lean) + handlers (Generated/JournalHandlers.lean)
+        chk.prove(["OptunaVerif.Props.C03", "OptunaVerif.Props.C03Cache", "OptunaVerif.Props.C03InMem",
+                   "OptunaVerif.Props.C03Journal"])
     quick = chk.tier == "quick"
     journal_create_study_race(chk)
     journal_param_race(chk)
